@@ -82,3 +82,81 @@ SPECS["C20"] = {
                     "a pool run whose real dispatch does not follow the FIFO model within the watchdog is "
                     "counted as inconclusive, never as a violation"],
 }
+
+
+_REC_REAL = ["esutil.sfile", "esutil.recfile (Python and _records C++)", "esutil.io front end", "glibc stdio",
+             "kernel file system (scratch directory under /dev/shm or /var/tmp)"]
+_REC_ASSUME = ["a working file system: no ENOSPC/EIO/torn writes are injected, because no given property says what "
+               "must hold after them (DESIGN.md 1.2)",
+               "tables are C-contiguous, packed dtypes; strided/byte-swapped presentations belong to C15"]
+_REC_STATE = ("state = per path (form sfile/raw, binary/text, has user header, #chunks capped at 3, stale-before-create) "
+              "and per handle (kind, mode, last outcome); transition = (state, op kind, entry point, outcome class)")
+
+
+def _rec(prop, quick, thorough, rule, expect, level_text, note):
+    return {
+        "parts": [{"engine": "recsim", "mode": "", "quick": quick, "thorough": thorough}],
+        "cap_quick": 150, "cap_thorough": 3000,
+        "rule": rule, "state_measure": _REC_STATE, "real": _REC_REAL, "stub": [], "assumptions": _REC_ASSUME,
+        "expect_reach": expect,
+        "manifest": {"design_ref": "3.1", "level_text": level_text, "level_note": note,
+                     "technique": ("deterministic simulation: seeded operation histories over record files on a scratch "
+                                   "disk with environment perturbations (stale/other-form files, interleaved handles, "
+                                   "object reuse, rejected requests); refinement of an in-memory table model plus an "
+                                   "independent parse of the durable bytes after every step")},
+    }
+
+
+SPECS["C01"] = _rec(
+    "C01", 25000, 2000000,
+    ("one run = 1-3 interleaved logical callers, each creating binary record files (random packed dtype, values incl. "
+     "NaN payloads/-0.0/extremes/embedded NULs, random header dict) through a random entry point and reading them back "
+     "through several others; perturbations: stale bytes or a longer file of the other form already at the path, "
+     "overwrite, a live reader object re-opened on another file, tables larger than the stdio buffer. Non-trivial = at "
+     "least one perturbation fired; distinct = distinct event-log digests among those"),
+    ["create_over_stale_bytes", "overwrite", "path_held_other_form", "object_reopened_on_other_file",
+     "table_larger_than_stdio_buffer", "interleaved_callers", "nonzero_offset"],
+    ("seeded search over dtypes x values x headers x entry points x prior path contents x caller interleavings; every read "
+     "is compared bit-for-bit with the written table and the file's bytes are parsed independently after every write. "
+     "Sampling, not proof."),
+    "working file system; <=8 fields (rarely 30), <=64 rows (5% up to 6000), header nesting <=3; numpy is the reference for bytes")
+
+SPECS["C04"] = _rec(
+    "C04", 25000, 2000000,
+    ("as C01 for delimited text (delimiters , : tab space ; |), integer/float/byte-string fields in either byte order; the "
+     "text is additionally tokenised by an independent parser. Non-trivial = at least one perturbation fired"),
+    ["create_over_stale_bytes", "overwrite", "path_held_other_form", "object_reopened_on_other_file",
+     "table_larger_than_stdio_buffer", "interleaved_callers"],
+    ("seeded search as C01; values are compared exactly for integers and strings and to 16/7 significant digits for floats, "
+     "NaN/inf preserved; independent tokenisation of the file's text. Sampling, not proof."),
+    "working file system; magnitudes within 1e-14 (f8) / 1e-5 (f4) of the largest finite value are not generated (their "
+    "16/7-digit decimal legitimately reads back as inf); strings are printable ASCII without newline characters")
+
+SPECS["C02"] = _rec(
+    "C02", 25000, 2000000,
+    ("one run = 1-3 callers, each storing one or two tables (binary or text, sfile or raw), keeping 1-3 reader handles "
+     "open and issuing 3-12 selections (scalar row, row lists with repeats/unsorted, slices with negative/out-of-range "
+     "bounds and steps, column name/list in any order) through every access style, plus out-of-range row lists that "
+     "must be rejected; the model is indexing of the fully-read table. Non-trivial = a previous read, a rejected request "
+     "or a re-open preceded a judged read on the same handle"),
+    ["previous_read_on_same_handle", "read_after_rejected_request", "out_of_range_row_list",
+     "object_reopened_on_other_file", "interleaved_callers", "nonzero_offset"],
+    ("seeded search over selections x access styles x handle histories (cursor left by the previous read, rejected "
+     "requests, interleaved handles on one file); every result is compared bit-for-bit with numpy indexing of the table "
+     "returned by a full read. Sampling, not proof."),
+    "the model is esutil's own full read of the same file (full reads are C01/C04's subject); empty row lists and negative "
+    "entries in row lists are left unconstrained")
+
+SPECS["C03"] = _rec(
+    "C03", 25000, 2000000,
+    ("one run = 1-3 callers, each running a history of 3-12 operations over {create, open writer (w / r+), write again on "
+     "the same handle, close, append by reopening (sfile.write/io.write append=True, SFile r+, Recfile r+), append to a "
+     "missing path, incompatible append, overwrite, read-back (also through the r+ handle), header} on one or two paths, "
+     "binary and text. Non-trivial = at least one perturbation fired"),
+    ["append_to_missing_file", "reopen_for_append", "incompatible_append", "several_writes_on_one_handle",
+     "close_after_writes", "overwrite", "create_over_stale_bytes", "interleaved_callers"],
+    ("seeded search over operation histories; the model is the list of accepted chunks; after every mutating step with no "
+     "writer open the file's bytes are parsed independently (SIZE line, END, rows x itemsize bytes or rows lines) and "
+     "every read-back is compared with the concatenation. Sampling, not proof."),
+    "working file system; reads through a second handle while a writer is open are generated but not judged (stdio "
+    "buffering makes them unspecified); raw Recfile files carry no dtype, so incompatible appends are only judged on sfiles")
